@@ -93,6 +93,7 @@ func (w *World) verifyFunc(con *Contract) (res *FuncResult) {
 	// smoke: precondition satisfiable
 	e.obls = append(e.obls, &Obligation{Name: e.fname + "#smoke:pre", Kind: "smoke", Step: len(e.steps), Reach: "true", Goal: "true", Smoke: true})
 	in.run(st)
+	e.curBlk = nil
 	// loop contracts must bind
 	for ord := range con.Loops {
 		found := false
@@ -129,12 +130,12 @@ func (w *World) verifyFunc(con *Contract) (res *FuncResult) {
 		}
 		for i, en := range con.Ensures {
 			t := in.specBool(en.Expr, renv)
-			o := &Obligation{Name: fmt.Sprintf("%s#ensures:%d@ret%d", e.fname, i, ri), Kind: "ensures", Pos: rp.pos, Step: rp.step(e), Reach: rp.st.reach, Goal: t, Top: en.Top}
+			o := &Obligation{Name: fmt.Sprintf("%s#ensures:%d@ret%d", e.fname, i, ri), Kind: "ensures", Pos: rp.pos, Step: rp.step(e), Reach: rp.st.reach, Goal: t, Top: en.Top, Blk: rp.blk}
 			e.obls = append(e.obls, o)
 		}
 		in.frameCheck(con, rp, ri)
 		// canary: false must not be provable at a reachable return
-		e.obls = append(e.obls, &Obligation{Name: fmt.Sprintf("%s#canary@ret%d", e.fname, ri), Kind: "canary", Pos: rp.pos, Step: rp.step(e), Reach: rp.st.reach, Goal: "false", Canary: true})
+		e.obls = append(e.obls, &Obligation{Name: fmt.Sprintf("%s#canary@ret%d", e.fname, ri), Kind: "canary", Pos: rp.pos, Step: rp.step(e), Reach: rp.st.reach, Goal: "false", Canary: true, Blk: rp.blk})
 	}
 	if len(in.rets) == 0 {
 		e.obls = append(e.obls, &Obligation{Name: e.fname + "#canary@end", Kind: "canary", Step: len(e.steps), Reach: "true", Goal: "false", Canary: true})
@@ -265,7 +266,7 @@ func (in *Inst) frameCheck(con *Contract, rp retPoint, ri int) {
 			}
 		}
 		goal := sImp(sAnd(conds...), sEq(sSel(sSel(memR, r), j), sSel(sSel(memE, r), j)))
-		e.obls = append(e.obls, &Obligation{Name: fmt.Sprintf("%s#frame:Mem@ret%d", e.fname, ri), Kind: "frame", Pos: rp.pos, Step: len(e.steps), Reach: rp.st.reach, Goal: goal})
+		e.obls = append(e.obls, &Obligation{Name: fmt.Sprintf("%s#frame:Mem@ret%d", e.fname, ri), Kind: "frame", Pos: rp.pos, Step: len(e.steps), Reach: rp.st.reach, Goal: goal, Blk: rp.blk})
 	}
 	var comps []string
 	for name := range e.sorts {
@@ -282,7 +283,7 @@ func (in *Inst) frameCheck(con *Contract, rp retPoint, ri int) {
 		}
 		if strings.HasPrefix(name, "g:") {
 			if !ghostMod[name] {
-				e.obls = append(e.obls, &Obligation{Name: fmt.Sprintf("%s#frame:%s@ret%d", e.fname, name, ri), Kind: "frame", Pos: rp.pos, Step: len(e.steps), Reach: rp.st.reach, Goal: sEq(ce, cr)})
+				e.obls = append(e.obls, &Obligation{Name: fmt.Sprintf("%s#frame:%s@ret%d", e.fname, name, ri), Kind: "frame", Pos: rp.pos, Step: len(e.steps), Reach: rp.st.reach, Goal: sEq(ce, cr), Blk: rp.blk})
 			}
 			continue
 		}
@@ -292,6 +293,6 @@ func (in *Inst) frameCheck(con *Contract, rp retPoint, ri int) {
 			conds = append(conds, sNot(sEq(r, x)))
 		}
 		goal := sImp(sAnd(conds...), sEq(sSel(cr, r), sSel(ce, r)))
-		e.obls = append(e.obls, &Obligation{Name: fmt.Sprintf("%s#frame:%s@ret%d", e.fname, name, ri), Kind: "frame", Pos: rp.pos, Step: len(e.steps), Reach: rp.st.reach, Goal: goal})
+		e.obls = append(e.obls, &Obligation{Name: fmt.Sprintf("%s#frame:%s@ret%d", e.fname, name, ri), Kind: "frame", Pos: rp.pos, Step: len(e.steps), Reach: rp.st.reach, Goal: goal, Blk: rp.blk})
 	}
 }
